@@ -77,4 +77,34 @@ theorem validate_guards_ok : validate_guards = (["len(parts) != 3", "checkSignat
 
 theorem extractState_guards_ok : extractState_guards = (["lastChar <= len(state)"] : List String) := rfl
 
+theorem skel_csrf_cookieName_ok : skel_csrf_cookieName = ([
+  "if c.cookieOpts.CSRFPerRequest",
+  "return csrfCookieName(c.cookieOpts, stateSubstring)"] : List String) := rfl
+
+theorem skel_ExtractStateSubstring_ok : skel_ExtractStateSubstring = ([
+  "if lastChar <= len(state)",
+  "return stateSubstring"] : List String) := rfl
+
+theorem skel_checkAllowedEmailDomains_ok : skel_checkAllowedEmailDomains = ([
+  "if len(allowedEmailDomains) == 0",
+  "return true",
+  "strings.Split",
+  "if len(splitEmail) != 2",
+  "return false",
+  "url.Parse",
+  "return util.IsEndpointAllowed(endpoint, allowedEmailDomainsList)",
+  "util.IsEndpointAllowed"] : List String) := rfl
+
+theorem skel_redirectToHTTPS_ok : skel_redirectToHTTPS = ([
+  "return http.HandlerFunc(func(rw http.ResponseWriter, req *http.Requ",
+  "func{",
+  "if strings.EqualFold(proto, httpsScheme) || (req.TLS != nil && proto == req.URL.Scheme)",
+  "strings.EqualFold",
+  "next.ServeHTTP",
+  "return",
+  "url.Parse",
+  "if targetURL.Port() != \"\"",
+  "net.SplitHostPort",
+  "http.Redirect"] : List String) := rfl
+
 end O2P.Expect.C19
